@@ -58,6 +58,9 @@ pub(crate) struct SizedOutput {
     pub(crate) out: OutputBuffer,
     path: Arc<Path>,
     pub(crate) trace: TraceOutput,
+
+    /// Signalled once the old output file that we renamed out of the way has been deleted.
+    old_output_deleted: Option<Receiver<()>>,
 }
 
 pub(crate) enum OutputBuffer {
@@ -159,6 +162,8 @@ impl Output {
                 rayon::spawn(move || {
                     verbose_timing_phase!("Create output file");
 
+                    let mut old_output_deleted = None;
+
                     if output_config.file_write_mode == FileWriteMode::UnlinkAndReplace {
                         // Rename the old output file so that we can create a new file in its place.
                         // Reusing the existing file would also be an option, but that wouldn't
@@ -176,21 +181,26 @@ impl Output {
                         // from a separate task so that it can run in the background while other
                         // threads continue working. Deleting can take a while for large files.
                         if rename_status.is_ok() {
+                            let (deleted_sender, deleted_recv) = std::sync::mpsc::channel();
+                            old_output_deleted = Some(deleted_recv);
                             rayon::spawn(move || {
                                 #[cfg(feature = "verif")]
                                 crate::verif::phase::point("creator:before-remove-old");
                                 let _ = std::fs::remove_file(renamed_old_file);
-                                // Note, we don't currently signal when we've finished deleting the
-                                // file. Based on experiments run on Linux 6.9.3, if we exit while
-                                // an unlink syscall is in progress on a separate thread, Linux will
-                                // wait for the unlink syscall to complete before terminating the
-                                // process.
+                                // Whoever finishes writing the output waits for this, otherwise we
+                                // might exit before this task has even started and leave the
+                                // renamed file behind.
+                                let _ = deleted_sender.send(());
                             });
                         }
                     }
 
                     // Create the output file.
-                    let sized_output = SizedOutput::new(path, output_config, size);
+                    let sized_output =
+                        SizedOutput::new(path, output_config, size).map(|mut sized_output| {
+                            sized_output.old_output_deleted = old_output_deleted;
+                            sized_output
+                        });
                     #[cfg(feature = "verif")]
                     crate::verif::phase::point("creator:after-create");
 
@@ -229,6 +239,11 @@ impl Output {
         write_fn(&mut sized_output, layout)?;
         sized_output.flush()?;
         sized_output.trace.close()?;
+
+        if let Some(old_output_deleted) = sized_output.old_output_deleted.take() {
+            timing_phase!("Wait for old output file deletion");
+            let _ = old_output_deleted.recv();
+        }
 
         // While we have the output file mmapped with write permission, the file will be locked and
         // unusable, so we can't really say that we've finished writing it until we've unmapped it.
@@ -313,6 +328,7 @@ impl SizedOutput {
             out,
             path,
             trace,
+            old_output_deleted: None,
         })
     }
 
